@@ -42,7 +42,11 @@ def run_op(draw, heat):
     if k == 0:
         o.update(draw(st.sampled_from(FAIL_OPTS)))
     elif k == 1:
-        o.update(only_update_hydraulic_matrix=True)     # reuse of internal data across calls is C07's subject
+        o.update(only_update_hydraulic_matrix=True)
+    elif k == 3:
+        # keeps the matrix structure on the net object; only valid while the structure is unchanged, so evaluate() strips the
+        # reuse flag whenever stored data of an earlier state could be picked up - a later run WITHOUT the flag must not see it
+        o.update(only_update_hydraulic_matrix=True, reuse_internal_data=True)
     if mode == "bidirectional":
         o["nonlinear_method"] = "constant"               # bidirectional + automatic: known finding of C05
     elif k == 2:
@@ -64,7 +68,7 @@ def case_strategy(draw, tier):
         if kind == "run":
             ops.append(draw(run_op(heat)))
         elif kind == "edit_undo":
-            ops.append({"op": "edit_undo", "k": draw(st.integers(0, 50)), "what": draw(st.sampled_from(["load", "length", "in_service", "p"])),
+            ops.append({"op": "edit_undo", "k": draw(st.integers(0, 50)), "what": draw(st.sampled_from(["load", "length", "in_service", "p", "ext_grid_junction", "rewire"])),
                         "factor": draw(st.sampled_from([0.5, 2.0, 1e4])), "run": draw(run_op(heat))["opts"]})
         elif kind == "user_opts":
             ops.append({"op": "user_opts", "opts": draw(st.sampled_from([{"friction_model": "swamee-jain"}, {"iter": 2}, {"tol_m": 1e-7},
@@ -105,10 +109,12 @@ def fluid_fingerprint(fl):
         return None
     out = {"name": fl.name, "type": fl.fluid_type, "props": {}}
     for name, p in sorted(fl.all_properties.items()):
-        try:
-            vals = [float(np.ravel(p.get_at_value(np.array([x])))[0]) for x in (250.0, 273.15, 300.0, 350.0, 420.0)]
-        except Exception as e:
-            vals = repr(e)
+        vals = []
+        for x in (250.0, 273.15, 300.0, 350.0, 420.0):
+            try:
+                vals.append(float(np.ravel(p.get_at_value(np.array([x])))[0]))
+            except Exception as e:           # e.g. a table without extrapolation queried outside its range
+                vals.append("raises " + type(e).__name__)
         out["props"][name] = (type(p).__name__, vals)
     return out
 
@@ -210,6 +216,22 @@ def apply_edit(net, rec, op):
             return None
         e = c[k % len(c)]
         col, tbl, new = "in_service", e["table"], not e.get("in_service", True)
+    elif what == "ext_grid_junction":
+        c = [e for e in els if e["table"] == "ext_grid"]
+        js = [j["index"] for j in rec["junction"]]
+        if not c or len(js) < 2:
+            return None
+        e = c[k % len(c)]
+        others = [j for j in js if j != e["junction"]]
+        col, tbl, new = "junction", "ext_grid", others[(k // 7) % len(others)]
+    elif what == "rewire":
+        c = [e for e in els if e["table"] == "pipe"]
+        js = [j["index"] for j in rec["junction"]]
+        if not c or len(js) < 3:
+            return None
+        e = c[k % len(c)]
+        others = [j for j in js if j not in (e["from_junction"], e["to_junction"])]
+        col, tbl, new = "to_junction", "pipe", others[(k // 7) % len(others)]
     else:
         c = [e for e in els if e["table"] == "ext_grid" and e.get("p_bar") is not None]
         if not c:
@@ -233,6 +255,7 @@ def evaluate(case):
     f = []
     statuses = []
     modes_seen = []
+    reuse_seen = []
     snap0 = snapshot(net)
 
     def fresh():
@@ -244,6 +267,11 @@ def evaluate(case):
 
     def check_run(opts, label, step):
         nonlocal snap0
+        if opts.get("reuse_internal_data") and ("_internal_data" in net or label == "run_after_undo"):
+            # stored data of another state: reusing it is the caller's responsibility, not part of the property
+            opts = {k_: v_ for k_, v_ in opts.items() if k_ != "reuse_internal_data"}
+        if opts.get("reuse_internal_data"):
+            reuse_seen.append(step)
         before = snapshot(net)
         st1 = call(net, copy.deepcopy(opts))
         d = diff_snapshot(before, snapshot(net))
@@ -322,6 +350,11 @@ def evaluate(case):
     failing = any(s != "ok" for s in statuses)
     mode_change = len(set(modes_seen)) >= 2
     labels = {"len:%d" % min(len(statuses), 9)} | {"status:" + s for s in set(statuses)} | {"mode:" + m for m in set(modes_seen)}
+    if reuse_seen:
+        labels.add("reuse_internal_data_then_more_runs" if reuse_seen[0] < len(case["ops"]) - 1 else "reuse_internal_data")
+    for op in case["ops"]:
+        if op["op"] == "edit_undo":
+            labels.add("edit:" + op["what"])
     return Outcome(findings=f, labels=labels, nontrivial=len(statuses) >= 3 and (failing or mode_change),
                    sample={"recipe": abbreviate(case["recipe"]), "ops": case["ops"], "statuses": statuses})
 
